@@ -305,5 +305,32 @@ def run(ck):
                           'matrix': fit['matrix'].tolist()})
         except linearfit.SingularMatrixError:
             pass
+    # weighted rscale on coincident points: exactly degenerate (su2v2 == 0 in exact arithmetic); the code detects
+    # it only if the weighted mean reproduces the common position exactly, i.e. if every normalised weight
+    # w_i / sum(w) is representable (else rounding leaves su2v2 ~ 1e-38 > 0: known finding K1)
+    for t in range(ck.n(60, 600)):
+        n = rng.randrange(2, 9)
+        c = [float(rng.randrange(-8, 9)), float(rng.randrange(-8, 9))]
+        uv = np.array([c] * n)
+        xy = np.array([[float(rng.randrange(-8, 9)), float(rng.randrange(-8, 9))] for _ in range(n)])
+        if t % 2:
+            w = [rng.choice([0.25, 0.5, 1.0, 2.0, 3.0]) for _ in range(n)]
+        else:
+            w = [1.0] * n if n in (2, 4, 8) else [2.0 ** rng.randrange(-2, 2)] * n   # exactly normalisable or not
+        W = sum(Fraction(x) for x in w)
+        rep = all(repr64(Fraction(x) / W) for x in w)
+        ck.search_evaluations += 1
+        ck.count('rscale_coincident_weighted', 'normalised weights representable' if rep else 'not representable')
+        try:
+            fit = linearfit.fit_rscale(xy, uv, wxy=np.array(w))
+            rp = {'kind': 'weighted-rscale-on-coincident-points-did-not-raise', 'uv': uv.tolist(), 'xy': xy.tolist(),
+                  'weights': w, 'matrix': np.asarray(fit['matrix']).tolist(),
+                  'normalised_weights_representable': rep}
+            if rep:
+                ck.violation(rp)
+            else:
+                ck.violation(rp, known_id='K1')
+        except linearfit.SingularMatrixError:
+            pass
     ck.trusted += ['K1 classification of singular inputs uses a python exact-rational mirror of the forward '
                    'elimination (representability of intermediates with a 64-bit significand)']
